@@ -42,7 +42,20 @@ def render_derive(inp):
         "rx_greedy_class": '#[regex("q[^\\n]*")]',
         "rx_undef_sub": '#[regex("(?&nope)a")]',
         "rx_uni_wordb": '#[regex(r"a\\b")]',
+        "rx_greedy_nested": '#[regex("q(?:.+)?")]',
+        "rx_greedy_capture": '#[regex("q(.)+")]',
+        "rx_only_empty": '#[regex("[a&&b]*")]',
+        "rx_only_empty_alt": '#[regex("y|[a&&b]?")]',
+        "rx_only_empty_neg": '#[regex(r"\\P{any}*")]',
+        "rx_never": '#[regex("[a&&b]q")]',
+        "rx_cb_paren_tail": '#[regex("[a-c]+", %s)]' % ("|lex| (lex).slice()" if shape == "field1" and not generic_form else "|_| (1u32) + 1" if shape == "field1" else "|_| (true) && true"),
+        "rx_cb_brace_tail": '#[regex("[a-c]+", %s)]' % ("|lex| { lex }.slice()" if shape == "field1" and not generic_form else "|_| { 1u32 } + 1" if shape == "field1" else "|_| { true } && true"),
+        "rx_cb_bracket_tail": '#[regex("[a-c]+", %s)]' % ("|lex| [lex.slice()][0]" if shape == "field1" and not generic_form else "|_| [1u32, 2][0]" if shape == "field1" else "|_| [true, false][0]"),
+        "rx_cb_bracket_only": '#[regex("[a-c]+", %s)]' % ("|lex| lex.slice()" if shape == "field1" and not generic_form else "|_| 1u32" if shape == "field1" else "|_| [true, true].len() == 2"),
         "rx_nonutf8": '#[regex(b"\\xff+")]',
+        "tok_b80_icase": '#[token(b"\\x80", ignore(case))]',
+        "tok_b7f80_icase": '#[token(b"k\\x7f\\x80\\x81", ignore(case))]',
+        "rx_b80": '#[regex(b"\\x80+")]',
         "tok_nonutf8": '#[token(b"\\xff")]',
         "rx_lookahead": '#[regex("a(?=b)")]',
         "rx_backref": '#[regex(r"(a)\\1")]',
@@ -82,6 +95,7 @@ def render_derive(inp):
         "sub_nonutf8": ['#[logos(subpattern h = b"\\xfe")]'],
         "source_deprecated": ["#[logos(source = [u8])]"],
         "error_attr_variant": [], "const_generic": [],
+        "skip_lit_tail": ['#[logos(skip " " priority = 3)]'], "skip_lit_tail_lit": ['#[logos(skip " " "x")]'],
         "dup_error_cb": ["#[logos(error(MyErr, callback = |_| MyErr, callback = |_| MyErr))]"],
         "gen_lt": [], "gen_two_lt_attr": ["#[logos(lifetime = 'a)]"], "gen_lt_none": ["#[logos(lifetime = none)]"],
         "gen_type_ok": ["#[logos(type T = u32)]"], "gen_type_lt_order": ["#[logos(type T = &'a str, lifetime = 'a)]"],
@@ -286,6 +300,69 @@ def derive_run(tier, seed):
 
 
 # ------------------------------------------------------------------------------------------
+# C19: astronomically large repetition counts (priority arithmetic), one process each under a memory limit
+
+HUGE = {
+    "product": "((a{4294967295}){4294967295}){4294967295}b",
+    "product2": "(?:[ab]{4294967295}){4294967295}",
+    "sum": "(a{4294967295}){1073741824}(a{4294967295}){1073741824}(a{4294967295}){1073741824}",
+    "skip_product": "((#{4294967295}){4294967295}){4294967295}",
+}
+
+
+def huge_run():
+    """The derive on counted repetitions whose default priority exceeds the machine word.  Building the
+    automaton for such a pattern needs more memory than any machine has, so each case runs in its own
+    process under an address-space limit: a panic before that point is a finding, running into the limit
+    is recorded as such (no verdict on termination for these inputs)."""
+    import resource
+    gen = build_gen()
+    d = os.path.join(workdir(), "huge-%s" % sha(json.dumps(HUGE, sort_keys=True), harness_hash())[:12])
+    res_path = os.path.join(d, "result.json")
+    if os.path.exists(res_path):
+        return json.load(open(res_path))
+    shutil.rmtree(d, ignore_errors=True)
+    os.makedirs(d)
+    out = {"cases": [], "findings": []}
+
+    def limit():
+        resource.setrlimit(resource.RLIMIT_AS, (3 << 30, 3 << 30))
+        resource.setrlimit(resource.RLIMIT_CORE, (0, 0))
+
+    for name, pat in sorted(HUGE.items()):
+        if name.startswith("skip"):
+            src = '#[derive(Logos)]\n#[logos(skip "%s")]\npub enum D {\n    #[token("x")]\n    X,\n}\n' % pat
+        else:
+            src = '#[derive(Logos)]\npub enum D {\n    #[regex("%s")]\n    X,\n    #[token("y")]\n    Y,\n}\n' % pat
+        inp = os.path.join(d, name + ".in.ndjson")
+        outp = os.path.join(d, name + ".out.ndjson")
+        with open(inp, "w") as f:
+            f.write(json.dumps({"id": name, "src": src}) + "\n")
+        try:
+            p = subprocess.run([gen, "strip", inp, outp], capture_output=True, text=True, timeout=600, preexec_fn=limit)
+            rc, err = p.returncode, p.stderr[-400:]
+        except subprocess.TimeoutExpired:
+            rc, err = None, "timeout"
+        o = None
+        if os.path.exists(outp) and os.path.getsize(outp):
+            o = json.loads(open(outp).readline())
+        if o is not None and o.get("panic"):
+            outcome = "panic"
+            out["findings"].append({"key": "huge:panic:" + name, "what": "the derive panicked on a huge repetition count (%s): %s" % (pat, o["panic"][:200]), "source": src})
+        elif o is not None:
+            outcome = "diagnostic" if o["errors"] else "accepted"
+        elif rc is not None and rc != 0 and ("memory allocation" in err or "capacity overflow" in err or rc < 0):
+            outcome = "memory limit reached while building the automaton"
+        else:
+            outcome = "no result (rc=%s): %s" % (rc, err[-200:])
+            out["findings"].append({"key": "huge:noresult:" + name, "what": "the derive neither finished nor hit the memory limit on %s: %s" % (pat, outcome), "source": src})
+        out["cases"].append({"name": name, "pattern": pat, "outcome": outcome})
+    with open(res_path, "w") as f:
+        json.dump(out, f)
+    return out
+
+
+# ------------------------------------------------------------------------------------------
 # C18: Attr.tla
 
 def render_attr_case(c, k, canonical=False):
@@ -401,7 +478,7 @@ def build_cli():
 
 def render_cli_source(s, stripped=False, keep=None):
     def derive(lst, trailing):
-        return "#[derive(%s%s)]" % (", ".join(lst), "," if trailing and lst else "")
+        return "#[derive(%s%s)]" % ((", " if stripped or s.get("sep", "spaced") == "spaced" else ",").join(lst), "," if trailing and lst else "")
     lines = []
     if s["extras"] == "doc_repr_before":
         lines += ["/// The tokens", "#[repr(u8)]"]
@@ -443,8 +520,8 @@ def cli_run(tier, seed):
     strips = [r[2] for r in recs if r[0] == "STRIP"]
     files = [r[2] for r in recs if r[0] == "FILES"]
     rng = random.Random(seed + 17)
-    if tier == "quick" and len(strips) > 1200:
-        strips = rng.sample(strips, 1200)
+    if tier == "quick" and len(strips) > 1500:
+        strips = rng.sample(strips, 1500)
     cli = build_cli()
     wd = os.path.join(workdir(), "cli-%d" % os.getpid())
     shutil.rmtree(wd, ignore_errors=True)
@@ -459,7 +536,7 @@ def cli_run(tier, seed):
         with open(inp, "w") as f:
             f.write(src)
         p = subprocess.run([cli, inp], capture_output=True, text=True)
-        key = "strip:%s|%s|%s|%s|%d" % (",".join(s["first"]), "T" if s["trailing"] else "-", ",".join(s["second"]), s["extras"], s["nlogos"])
+        key = "strip:%s|%s%s|%s|%s|%d" % (",".join(s["first"]), "T" if s["trailing"] else "-", "t" if s.get("sep") == "tight" else "", ",".join(s["second"]), s["extras"], s["nlogos"])
         if p.returncode != 0:
             findings.append({"key": key, "what": "logos-cli failed (exit %d): %s" % (p.returncode, p.stderr[-300:]), "source": src})
             continue
@@ -532,47 +609,59 @@ def cli_run(tier, seed):
 # ------------------------------------------------------------------------------------------
 # C09: Regex.tla
 
-def render_ast(r, top=True):
+SYM_BYTES = {"a": b"a", "b": b"b", "e": "é".encode(), "h": b"\xe2\x82", "f": b"\xff", "o": b"o"}
+DOT_TEXT = {"nl": b".", "s": b"(?s:.)", "cls": b"[^\\n]"}
+
+
+def render_ast_bytes(r, top=True):
+    """AST of Regex.tla -> the bytes of the pattern text (h and f stand for bytes that are not valid UTF-8)."""
     t = r[0]
-    ch = lambda c: "é" if c == "e" else c
     if t == "lit":
-        return "".join(ch(c) for c in r[1])
+        return b"".join(SYM_BYTES[c] for c in r[1])
     if t == "cls":
-        return "[" + "".join(ch(c) for c in r[1]) + "]"
+        return b"[" + b"".join(SYM_BYTES[c] for c in r[1]) + b"]"
+    if t == "dot":
+        return DOT_TEXT[r[1]]
     if t == "look":
-        return "$"
+        return b"$"
     if t == "empty":
-        return ""
+        return b""
+    if t == "cap":
+        return b"(" + render_ast_bytes(r[1], False) + b")"
     if t == "cat":
-        return "".join(render_group(x, "cat") for x in r[1:3])
+        return b"".join(render_group(x, "cat") for x in r[1:3])
     if t == "alt":
-        return render_ast(r[1], False) + "|" + render_ast(r[2], False)
-    if t == "rep":
+        return render_ast_bytes(r[1], False) + b"|" + render_ast_bytes(r[2], False)
+    if t in ("rep", "lazy"):
         lo, hi = r[2], r[3]
         inner = render_group(r[1], "rep")
         if (lo, hi) == (0, 99):
-            q = "*"
+            q = b"*"
         elif (lo, hi) == (1, 99):
-            q = "+"
+            q = b"+"
         elif (lo, hi) == (0, 1):
-            q = "?"
+            q = b"?"
         elif hi == 99:
-            q = "{%d,}" % lo
+            q = b"{%d,}" % lo
         elif lo == hi:
-            q = "{%d}" % lo
+            q = b"{%d}" % lo
         else:
-            q = "{%d,%d}" % (lo, hi)
-        return inner + q
+            q = b"{%d,%d}" % (lo, hi)
+        return inner + q + (b"?" if t == "lazy" else b"")
     raise ValueError(t)
 
 
 def render_group(x, ctx):
-    s = render_ast(x, False)
+    s = render_ast_bytes(x, False)
     if x[0] == "alt" or (x[0] == "empty" and ctx == "rep"):
-        return "(?:" + s + ")"
-    if ctx == "rep" and not (x[0] == "cls" or (x[0] == "lit" and len(x[1]) == 1)):
-        return "(?:" + s + ")"
+        return b"(?:" + s + b")"
+    if ctx == "rep" and not (x[0] in ("cls", "dot", "cap") or (x[0] == "lit" and len(x[1]) == 1 and x[1][0] in "abfo")):
+        return b"(?:" + s + b")"
     return s
+
+
+def render_ast(r, top=True):
+    return render_ast_bytes(r, top).decode()
 
 
 def prio_run(tier, seed):
@@ -611,6 +700,20 @@ def prio_run(tier, seed):
                 leaf = 0
             defs.append(d)
             expect.append((exp, leaf, text, variant, a["r"]))
+    # utf8 = false patterns with runs of bytes that are not valid UTF-8 (Regex.tla, MODE = bytes)
+    resb = run_tlc("Regex.tla", "Regex.cfg", {"DEPTH": str(depth), "MODE": "bytes"}, workers=8, metaname="regexb")
+    if not resb["ok"]:
+        raise ToolError("Regex.tla (bytes): LiteralNotBeaten violated at specification level:\n" + resb["out"][-3000:])
+    basts = [r[2] for r in tlc_records(resb) if r[0] == "AST"]
+    n_basts = len(basts)
+    if tier == "quick" and len(basts) > 2000:
+        small = [a for a in basts if len(json.dumps(a["r"])) < 60]
+        rest = [a for a in basts if a not in small]
+        basts = small + rng.sample(rest, 2000 - min(2000, len(small)))
+    for k, a in enumerate(basts):
+        text = render_ast_bytes(a["r"])
+        defs.append(corpus.mk("bast%d" % k, [corpus.rx(list(text), greedy=True)], utf8=False))
+        expect.append((a["prio"], 0, text.decode("latin-1"), "regex-bytes", a["r"]))
     # literal tokens: 2 x byte length, explicit priority overrides
     lits = ["a", "ab", "é", "éa", "a.b", "€", "😀x", "+", "abc"]
     for k, w in enumerate(lits):
@@ -640,7 +743,53 @@ def prio_run(tier, seed):
         else:
             n_ok += 1
     samples = [{"pattern": e[2], "kind": e[3], "expected_priority": e[0]} for e in expect[:: max(1, len(expect) // 6)][:6]]
-    return {"tlc": {k: res[k] for k in ("states", "distinct", "wall")}, "asts": len(asts), "cases": len(expect), "agree": n_ok, "findings": findings, "samples": samples, "wall": time.time() - t0}
+    return {"tlc": {k: res[k] + resb[k] for k in ("states", "distinct", "wall")}, "asts": len(asts), "asts_bytes": len(basts), "asts_bytes_enumerated": n_basts,
+            "cases": len(expect), "agree": n_ok, "findings": findings, "samples": samples, "wall": time.time() - t0}
+
+
+# ------------------------------------------------------------------------------------------
+# C19: the greedy-dot rule (Regex.tla, MODE = dot: GreedyAll)
+
+def greedy_run(tier, seed):
+    """Every AST of the dot fragment through the real derive without allow_greedy: the greedy-dot
+    diagnostic must be present exactly when GreedyAll holds; with allow_greedy it must never be."""
+    import corpus
+    from pipeline import capture
+    t0 = time.time()
+    res = run_tlc("Regex.tla", "Regex.cfg", {"DEPTH": "2", "MODE": "dot"}, workers=8, metaname="regexdot")
+    if not res["ok"]:
+        raise ToolError("Regex.tla (dot) violated at specification level:\n" + res["out"][-2000:])
+    asts = [r[2] for r in tlc_records(res) if r[0] == "AST"]
+    defs = []
+    expect = []
+    for k, a in enumerate(asts):
+        text = render_ast(a["r"])
+        defs.append(corpus.mk("gd%d" % k, [corpus.rx(text)]))
+        expect.append((a["greedy"], text, "regex", a["r"]))
+        if k % 5 == 0:
+            defs.append(corpus.mk("gds%d" % k, [corpus.tok("zzzz")], [corpus.skip(text)]))
+            expect.append((a["greedy"], text, "skip", a["r"]))
+        if k % 5 == 1:
+            defs.append(corpus.mk("gda%d" % k, [corpus.rx(text, greedy=True)]))
+            expect.append((False, text, "regex-allow_greedy", a["r"]))
+    defs_path, metas, _ = capture(defs, "greedy")
+    findings = []
+    n_ok = 0
+    n_greedy = 0
+    for m, (exp, text, variant, ast) in zip(metas, expect):
+        if m["panic"]:
+            findings.append({"key": "greedy:panic:%s:%s" % (variant, text), "what": "derive panicked on %s: %s" % (text, m["panic"]), "source": m["src"]})
+            continue
+        got = any("greedy" in e for e in m["errors"])
+        n_greedy += 1 if exp else 0
+        if got != exp:
+            findings.append({"key": "greedy:%s:%s" % (variant, text),
+                             "what": "%s %r: %s, the rule says it %s an unbounded greedy dot repetition" % (variant, text, "rejected as greedy" if got else "greedy-dot diagnostic missing (%s)" % ("accepted" if m["accepted"] else m["errors"][:1]), "contains" if exp else "does not contain"),
+                             "source": m["src"], "ast": ast})
+        else:
+            n_ok += 1
+    samples = [{"pattern": e[1], "kind": e[2], "must_be_rejected_as_greedy": e[0]} for e in expect[:: max(1, len(expect) // 6)][:6]]
+    return {"tlc": {k: res[k] for k in ("states", "distinct", "wall")}, "asts": len(asts), "cases": len(expect), "agree": n_ok, "greedy_cases": n_greedy, "findings": findings, "samples": samples, "wall": time.time() - t0}
 
 
 # ------------------------------------------------------------------------------------------
